@@ -167,6 +167,11 @@ def run(pid, tier, seed, res, seeds_extra=None, only=None):
         if v["via"] in kgraph.SUBVIA:
             deps[SUBSTUB] = [v["src"]]
             mnodes.append(SUBSTUB)
+        elif v["via"] == "op":
+            # an operator node (plain node) between the source and the dependent
+            deps[SUBSTUB] = [PARAM if v["how"] == "param" else v["src"]]
+            mnodes.append(SUBSTUB)
+            deps[v["dst"]] = deps[v["dst"]] + [SUBSTUB]
         else:
             deps[v["dst"]] = deps[v["dst"]] + [PARAM if v["how"] == "param" else v["src"]]
         term = "kbuild %s %s %s %s %s %s" % (
